@@ -752,12 +752,14 @@ def _wrapper_fold(ck, repo, g, side):
     apps = [c for c in gv.calls("append") if contains(w, c)]
     kinds = {}
     for c in apps:
-        conds = gv.conditions(c)
-        for t, o in conds:
-            if o == "T" and t in (f"{tvar}.is_list_type", f"{tvar}.is_non_null_type"):
-                kinds[t.split(".")[-1]] = c
-    ck.ob(f"{g.name}: has an arm for list wrappers", "is_list_type" in kinds, g, w, construct="fold:list-arm")
-    ck.ob(f"{g.name}: has an arm for non-null wrappers", "is_non_null_type" in kinds, g, w, construct="fold:non-null-arm")
+        pushed = unparse(c.args[0]) if c.args else ""
+        conds = set(gv.conditions(c)) - {(unparse(w.test), "T")}
+        if "list_coercer" in pushed and conds == {(f"{tvar}.is_list_type", "T")}:
+            kinds["is_list_type"] = c
+        elif "non_null_coercer" in pushed and (f"{tvar}.is_non_null_type", "T") in conds and (f"{tvar}.is_list_type", "T") not in conds:
+            kinds["is_non_null_type"] = c
+    ck.ob(f"{g.name}: a list wrapper (and only a list wrapper) pushes the list coercer", "is_list_type" in kinds, g, w, construct="fold:list-arm")
+    ck.ob(f"{g.name}: a non-null wrapper (and only it) pushes the non-null coercer", "is_non_null_type" in kinds, g, w, construct="fold:non-null-arm")
     same_list = len({unparse(c.func.value) for c in apps}) == 1 and len(apps) >= 2
     ck.ob(f"{g.name}: both arms push onto the same wrapper list", same_list, g, w, construct="fold:same-list")
     # step: inner_type = wrapped type, executed on every iteration
